@@ -91,6 +91,15 @@ package rules
 //   B2 skip qos 0; B3 early return keeps the larger -> all exit 1. Preserving, exit 0: BP1/BP2 store skipped
 //   only when the recorded qos equals the requested one.
 //
+// Round 3 (overlay driver out/mut4.py; c14_teardown.go):
+//   R-C14-9 |filters unsubscribed unless ownership was lost: seeded a (early `if c.disconnected() { return }`);
+//   TA1 skipped for clean sessions; TA2 guard && !disconnected(); TA3 unsubscribe only while status Connected -> exit 1.
+//   R-C14-9 |teardown on every exit of the reader: TA4 teardown moved under `if will != nil`; TA5 return before the defer -> exit 1.
+//   Preserving, exit 0: TP1 identity guard as a local bool + early return on lost ownership; TP2 nil-session early return.
+//   R-C14-5 |filters and QoS stay paired: seeded b (sort.Strings(sub)); PB1 sort.Slice(qos); PB2 two loops over the map;
+//   PB3 in-place reverse of one slice; PB4 reslice of one -> exit 1. Preserving, exit 0: PP1 make+rename+swapped
+//   appends; PP2 sorted keys, both built from the key (qos = Topics[k]); PP3 indexed fill with a shared index.
+//
 // GENUINE DEFECTS found on the tree of the first pass (since fixed in /repo: 8fc741a, 90acb3c; demo out/zz_triage_test.go):
 //   R-C14-6 |(TopicManager).subscribe|all-or-nothing            — out/fix-1.diff
 //   R-C14-6 |(TopicManager).unsubscribe|every filter processed  — out/fix-2.diff
@@ -127,10 +136,11 @@ func c14(c *core.Ctx) string {
 	c.Rule("R-C14-2", "validation gate: insert/remove/findSubscribers take their levels from the level source (getLevels -> topicLevelManager.get) and index child maps only by elements of that slice or constants; insert reports the source's error (unless every call site validated the batch first); the level cache is filled only with splits splitTopic declared valid, under the key that was split, and get returns a nil error only for a cache hit or a valid split")
 	c.Rule("R-C14-3", "pruning guard: delete(parent.nodes, level) is reachable only when the child stored under exactly that key has len(clients)==0 and len(nodes)==0; remove deletes the caller's client id from the clients map and nothing else")
 	c.Rule("R-C14-4", "lock discipline: every store into topicNode.clients/nodes is executed with the manager's write lock held, every other access (field selection, collector call) with the read or write lock held — taken in the accessing function or held at all of its call sites (helpers, depth <= 3); locks are released at every exit; the maps do not escape through aliases; node literals create fresh maps; TopicManager.root is never reassigned")
-	c.Rule("R-C14-5", "QoS provenance: the only stores into the result map copy (client, qos) pairs ranged from some node's clients map; insert stores the caller's qos under the caller's client id on every successful path (it may be skipped only when the recorded qos is known to equal the requested one); subscribe pairs filter i with qoss[i]")
+	c.Rule("R-C14-5", "QoS provenance: the only stores into the result map copy (client, qos) pairs ranged from some node's clients map; insert stores the caller's qos under the caller's client id on every successful path (it may be skipped only when the recorded qos is known to equal the requested one); subscribe pairs filter i with qoss[i]; Session.allSubscribes fills its two result slices in one loop body from the same SessionInfo.Topics entry and touches neither on its own afterwards")
 	c.Rule("R-C14-6", "batch consistency between trie and session: the SUBSCRIBE handler records/acknowledges a batch only if TopicManager.subscribe succeeded; subscribe returns a non-nil error whenever a filter of the batch was found malformed, and is all-or-nothing (no error return after an insert succeeded unless the whole batch was validated first); the UNSUBSCRIBE/disconnect/session-discard paths forget the whole batch whatever unsubscribe returns, so unsubscribe must process every filter of the batch (no exit before the removal loop is exhausted) — if the callers are changed to gate on the error, the contract checked becomes all-or-nothing instead")
 	c.Rule("R-C14-7", "wildcard placement in splitTopic: an iteration that knows the character to be '+' or '#' ends with the wildcard flag raised; whenever a level is closed (stored into the result slice) with the flag raised, the length of that very level — the stored value or its slot, read before any variable it is spelled with is reassigned — is tested to be <= 1 before the topic can be accepted")
 	c.Rule("R-C14-8", "session record persisted: every function that changes an element of SessionInfo.Topics calls Session.store (directly, deferred or through an in-package helper) on every path between the last change and its return")
+	c.Rule("R-C14-9", "teardown removes the filters: a Client method that unsubscribes its own session's filters does so on every return path unless the connection registered under the client id is known to be another one (identity guard) or the session is nil; the Client method that calls packets.ReadPacket runs such a teardown on every exit")
 	c.NotDecided = []string{
 		"correctness of the trie as a whole over arbitrary histories (walk of insert/remove reaching the right node is not decided; the matcher is decided per level, whole-topic correctness follows by induction argued in DESIGN, not machine-checked)",
 		"the rest of splitTopic's character automaton: '#' only as the last character (cursor arithmetic), over-rejection of valid filters (flag not reset), the empty filter — value semantics; R-C14-7 decides only that a wildcard level's own length is tested",
@@ -164,6 +174,8 @@ func c14(c *core.Ctx) string {
 	c14QoS(e)
 	c14Split(e)
 	c14Session(e)
+	c14Teardown(e)
+	c14Pairing(e)
 	return "Static shape rules on the MQTT topic trie: the per-level decision of findSubscribers is extracted path-sensitively and compared with the MQTT 3.1.1 table ('#' collects and stops, '+'/equal descend, parent-level '#' after the last level); validation gates, the pruning guard, lock discipline / write sites, QoS provenance, and the all-or-nothing / process-everything contracts of the batch operations the SUBSCRIBE, UNSUBSCRIBE and disconnect paths rely on. Not decided: the trie over whole histories, splitTopic's automaton, pruning order, LRU eviction."
 }
 
